@@ -23,6 +23,7 @@ import GormModel.Lemmas.Heap
 import GormModel.Lemmas.HeapQuiet
 import GormModel.Lemmas.HeapSim
 import GormModel.Lemmas.ClauseMap
+import GormModel.Lemmas.ArgUse
 namespace Gorm
 open Gorm.Heap
 
@@ -554,5 +555,138 @@ example : queryRound .rtrimJoins [7, 8] [[1], [2]] = some [7, 8] := by decide
 /-- `Count` restores what it changes: each of its immediate writes to the clause map (SELECT, ORDER BY) and to
     `Model` has a deferred write to the same target (regenerated list of its statement writes) -/
 theorem C06_count_restores : countRestoresAll = true := by decide
+
+
+/-! ## round 3 — a handle handed to ANOTHER chain as an ARGUMENT is never written
+
+`Joins("Rel", h)`, `Where("x IN (?)", h)` (and Or / Not / Having / Select / Table / Order / Update / Updates / Create /
+Raw / Exec / gorm.Expr / clause.Expr{Vars} / named arguments / slices holding h — everything that ends in
+`Statement.AddVar`), `Where(h)` / Or / Not / Having / inline conditions of finishers, Preload and Association
+(`Statement.BuildCondition`).  The list of sites is REGENERATED (`Gen.argSites`: every `case *DB:` arm and `.(*DB)`
+assertion of gorm), each with the syntactic events of its body about the argument. -/
+
+open ArgUse
+
+/-- the sites that recognise a `*gorm.DB` among arguments / bound values: exactly these four.  A new site makes
+    this theorem fail until it is modelled. -/
+theorem C06_arg_sites_known :
+    Gen.argSites.map (fun s => (s.file, s.fn, s.form)) =
+      [("callbacks/update.go", "ConvertToAssignments", "assert-if"), ("chainable_api.go", "joins", "assert-if"),
+       ("statement.go", "Statement.AddVar", "switch"), ("statement.go", "Statement.BuildCondition", "switch")] := by decide
+
+/-- regenerated, per site: NO event that can write into the argument's own statement or into an array it shares —
+    no element assignment through an alias (`where.Exprs[i] = …`), no field assignment through the argument, no
+    append onto an aliased slice, no hand-on of the argument to another function, and every method that is not a
+    pure read / derivation (`executeScopes`, `AddClause`, `Build`, chain methods, callbacks) reaches the argument
+    only behind `getInstance()` -/
+theorem C06_arg_sites_never_write : ∀ s ∈ Gen.argSites, siteWrites s = [] := by decide
+
+/-- … hence the three modelled sites run with the safe discipline -/
+theorem C06_arg_site_cfgs : joinsCfg = siteSafe ∧ addVarCfg = siteSafe ∧ groupCfg = siteSafe := by decide
+
+/-- the fields of the join record that ALIAS the argument (`join.On` = the argument's WHERE slice, `Selects`,
+    `Omits`, `Conds`) are only read / ranged over / handed to `onStmt.AddClause` (Where.MergeClause copies) when
+    the consumer is built -/
+theorem C06_join_record_fields_only_read : ∀ u ∈ Gen.joinFieldUses, joinUseOK u = true := by decide
+
+/-- the run of a quiet history is well-formed at every point (heap and every handle) -/
+theorem sok_of_quiet (sl : List (List Nat × Nat)) (fuel : Nat) (ops : List Heap.Op) (q : Quiet sl fuel ops) :
+    ∀ n, SOK (runFrom cfgSafe sl fuel (initState sl) (ops.take n)) ∧
+         Grows (initHeap sl) (runFrom cfgSafe sl fuel (initState sl) (ops.take n)).heap
+  | 0 => by
+    simp only [List.take_zero, runFrom, List.foldl_nil]
+    exact ⟨SOK_init sl, Grows.refl _⟩
+  | n + 1 => by
+    have ih := sok_of_quiet sl fuel ops q n
+    by_cases h : n < ops.length
+    · have hop : ops[n]? = some ops[n] := List.getElem?_eq_getElem h
+      have hq : (step cfgSafe sl fuel (runFrom cfgSafe sl fuel (initState sl) (ops.take n)) ops[n]).heap.writes =
+          (runFrom cfgSafe sl fuel (initState sl) (ops.take n)).heap.writes := by
+        rw [← runFrom_take_succ sl fuel (initState sl) ops n ops[n] hop, q (n + 1), q n]
+      have s := step_ok sl fuel _ ops[n] ih.1 ih.2 hq
+      rw [runFrom_take_succ sl fuel (initState sl) ops n ops[n] hop]
+      exact ⟨s.1, Grows.trans ih.2 s.2.1.g⟩
+    · have e : ops.take (n + 1) = ops.take n := by
+        rw [List.take_of_length_le (by omega), List.take_of_length_le (by omega)]
+      rw [e]; exact ih
+
+/-- what an argument use must guarantee about the ARGUMENT handle `arg` in heap `H`: the handle keeps its value,
+    no exposed slot is written and every array that existed is untouched (`Same`), the whole statement keeps its
+    deep value (`StEq`: every slice reachable from it, array identities quotiented away) — hence every later
+    rendering of it, by any finisher at any nesting depth, spells the same tokens -/
+def Transparent (H : Heap) (arg : Heap.Handle) (u : UseOut) : Prop :=
+  u.arg = arg ∧ Same H u.heap ∧ StEq u.heap arg.st H arg.st ∧
+  ∀ fuel fin, (renderStmt cfgSafe.mg true fuel u.heap arg.st fin).2 = (renderStmt cfgSafe.mg true fuel H arg.st fin).2
+
+theorem transparent_of {H : Heap} {arg : Heap.Handle} {u : UseOut} (ha : u.arg = arg) (hs : Same H u.heap) (t : Tr H u.heap)
+    (wf : StEq H arg.st H arg.st) : Transparent H arg u :=
+  ⟨ha, hs, wf.mono t (Tr.refl t.ok), fun fuel fin => render_after_tr t arg.st wf fuel fin⟩
+
+/-- AN ARGUMENT USE NEVER WRITES THE ARGUMENT'S STATEMENT.  For every well-formed heap, every handle in ANY state
+    (any WHERE shape incl. a lone Or / leading Or / Not, pending scopes, joins, selects, limits …, clone 0/1/2),
+    at every site whose regenerated discipline is the safe one and with the "copies everywhere" clone/merge
+    discipline: `Joins("Rel", h)` followed by the build of the consumer's ON clause (with or without the joined
+    model's soft-delete condition `qc`), `h` bound as a sub-query VALUE, `h` as a GROUP condition — each is
+    `Transparent`. -/
+theorem C06_argument_use_transparent (fuel : Nat) (H : Heap) (ok : HeapOK H) (arg : Heap.Handle) (wf : StEq H arg.st H arg.st)
+    (qc : Option Nat) :
+    Transparent H arg (joinsUseBuilt siteSafe cfgSafe fuel H arg qc) ∧
+    Transparent H arg (subqueryUse siteSafe cfgSafe fuel H arg) ∧
+    Transparent H arg (groupUse siteSafe cfgSafe fuel H arg) := by
+  refine ⟨transparent_of ?_ ?_ ?_ wf, transparent_of (subqueryUse_arg _ _ _ _) (subqueryUse_same _ _ _) (subqueryUse_tr fuel ok arg wf) wf,
+    transparent_of (groupUse_arg _ _ _ _) (groupUse_same _ _ _) (groupUse_tr fuel ok arg wf) wf⟩
+  · simp [joinsUseBuilt, joinsUse_safe]
+  · simp only [joinsUseBuilt, joinsUse_safe]; exact joinOnBuild_same fuel H _ qc
+  · simp only [joinsUseBuilt, joinsUse_safe]; exact joinOnBuild_tr fuel ok _ wf.wher qc
+
+/-- … in particular at ANY point of ANY history in which chain instances are used at most once more (`Linear`),
+    for ANY handle `i` of it as the argument (the hypotheses of `C06_argument_use_transparent` are what such a run
+    provides — non-vacuity) -/
+theorem C06_argument_use_in_history (fuel : Nat) (sl : List (List Nat × Nat)) (ops : List Heap.Op) (hl : Linear ops) (i : Nat)
+    (qc : Option Nat) :
+    let S := run cfgFixed fuel ⟨sl, ops⟩
+    Transparent S.heap (S.handle i) (joinsUseBuilt siteSafe cfgSafe fuel S.heap (S.handle i) qc) ∧
+    Transparent S.heap (S.handle i) (subqueryUse siteSafe cfgSafe fuel S.heap (S.handle i)) ∧
+    Transparent S.heap (S.handle i) (groupUse siteSafe cfgSafe fuel S.heap (S.handle i)) := by
+  intro S
+  have k := (sok_of_quiet sl fuel ops (quiet_of_linear sl fuel ops hl) ops.length).1
+  rw [List.take_length] at k
+  exact C06_argument_use_transparent fuel S.heap k.heap (S.handle i) (k.env i).2 qc
+
+/-- WHAT HOLDS FOR THE CURRENT SOURCE TREE: its own regenerated site disciplines and its own clone / merge
+    discipline, whenever the latter is "copies everywhere" -/
+theorem C06_argument_use_current_tree (hg : genAll = cfgFixed) (fuel : Nat) (H : Heap) (ok : HeapOK H) (arg : Heap.Handle)
+    (wf : StEq H arg.st H arg.st) (qc : Option Nat) :
+    Transparent H arg (joinsUseBuilt joinsCfg genAll fuel H arg qc) ∧
+    Transparent H arg (subqueryUse addVarCfg genAll fuel H arg) ∧
+    Transparent H arg (groupUse groupCfg genAll fuel H arg) := by
+  rw [C06_arg_site_cfgs.1, C06_arg_site_cfgs.2.1, C06_arg_site_cfgs.2.2, hg, C06_cfgFixed_eq]
+  exact C06_argument_use_transparent fuel H ok arg wf qc
+
+/-- a later chain of the argument handle: `arg.Where(c9).Find` -/
+def laterChain (H : Heap) (arg : Heap.Handle) : List Tok :=
+  let p := condAtom H 9
+  let q := addWhere cfgSafe.mg p.1 arg.st p.2
+  (renderStmt cfgSafe.mg true 16 q.1 q.2 0).2
+
+/-- a site that DOES assign `where.Exprs[0]` through its alias (the shape of F5, at `Joins("Rel", h)`): the
+    argument `h = Or(c1)` renders `c9 OR c1` before and `c1 AND c9` after another chain merely BUILT a join with it -/
+theorem C06_joins_rewrite_counterexample :
+    let a := mkArg [1] 0
+    let u := joinsUse ⟨false, 1, 0⟩ a.1 a.2
+    laterChain a.1 a.2 ≠ laterChain u.1 u.2.1 ∧ argChanged a.1 u.1 a.2 u.2.1 = ["where"] := by decide +kernel
+
+/-- a site that reaches `executeScopes` on the argument itself (the shape of F24, at a VALUE position): the
+    argument's pending scope is gone afterwards -/
+theorem C06_subquery_scopes_counterexample :
+    let a := mkArg [0] 1
+    let u := subqueryUse ⟨true, 0, 0⟩ cfgSafe 16 a.1 a.2
+    laterChain a.1 a.2 ≠ laterChain u.heap u.arg ∧ argChanged a.1 u.heap a.2 u.arg = ["scopes"] := by decide +kernel
+
+/-- the same two arguments at sites with the safe discipline: unchanged -/
+example : (let a := mkArg [1] 0; let u := joinsUseBuilt siteSafe cfgSafe 16 a.1 a.2 (some 7)
+           laterChain a.1 a.2 = laterChain u.heap u.arg ∧ argChanged a.1 u.heap a.2 u.arg = []) := by decide +kernel
+example : (let a := mkArg [0] 1; let u := subqueryUse siteSafe cfgSafe 16 a.1 a.2
+           laterChain a.1 a.2 = laterChain u.heap u.arg ∧ argChanged a.1 u.heap a.2 u.arg = [] ∧ u.toks.length > 2) := by decide +kernel
 
 end Gorm
